@@ -4,6 +4,7 @@ import (
 	"context"
 	"encoding/json"
 	"fmt"
+	"net"
 	"sort"
 	"strconv"
 	"strings"
@@ -483,7 +484,81 @@ func c17Raw(o *common.Out, id, spec string) {
 	o.Count("raw-replies")
 }
 
+func init() {
+	// a second network that leads to other servers than "vsrv" does under the same address (as tcp and quic do)
+	client.ConnFactories["vsrv2"] = func(c *client.Client, network, address string) (net.Conn, error) {
+		return client.ConnFactories["vsrv"](c, "vsrv", address+"/2")
+	}
+}
+
+// c17Twins: servers that share an address and differ in their network (tcp@h:p next to quic@h:p): each is a server of
+// its own - one receipt each, Broadcast succeeds only if both did.  Oracle only.  case: twins|<outcome of the twin>|<order>
+func c17Twins(o *common.Out, id string, twin string, twinFirst bool) {
+	abstract := fmt.Sprintf("twins|%s|%v", twin, twinFirst)
+	o.Begin(id, abstract)
+	o.Count("servers-sharing-an-address")
+	uid := atomic.AddInt64(&c17seq, 1)
+	a, b := fmt.Sprintf("c17t-%d-a", uid), fmt.Sprintf("c17t-%d-b", uid)
+	d1, d2 := 0, c17Slot
+	if twinFirst {
+		d1, d2 = c17Slot, 0
+	}
+	registerFake(a, &fakeServer{id: 0, calls: []string{"ok11", "ok11"}, delayMs: d1})
+	registerFake(a+"/2", &fakeServer{id: 1, calls: []string{twin, twin}, delayMs: d2})
+	registerFake(b, &fakeServer{id: 2, calls: []string{"ok33", "ok33"}, delayMs: 2 * c17Slot})
+	defer func() { unregisterFake(a); unregisterFake(a + "/2"); unregisterFake(b) }()
+	d, _ := client.NewMultipleServersDiscovery([]*client.KVPair{{Key: "vsrv@" + a}, {Key: "vsrv2@" + a}, {Key: "vsrv@" + b}})
+	opt := client.DefaultOption
+	opt.SerializeType = protocol.JSON
+	opt.Heartbeat = false
+	xc := client.NewXClient("Svc", client.Failfast, client.RandomSelect, d, opt)
+	defer xc.Close()
+	ctx, cancel := context.WithTimeout(context.Background(), 5*time.Second)
+	defer cancel()
+	var reply int
+	rs, err := xc.Inform(ctx, "M", 1, &reply)
+	var got []string
+	for _, rc := range rs {
+		rep := "-"
+		if p, ok := rc.Reply.(*int); ok && p != nil && rc.Error == nil {
+			rep = strconv.Itoa(*p)
+		}
+		got = append(got, fmt.Sprintf("%s:%s:%v", rc.Address, rep, rc.Error == nil))
+	}
+	sort.Strings(got)
+	twinOK := strings.HasPrefix(twin, "ok")
+	tw := fmt.Sprintf("%s:-:false", a)
+	if twinOK {
+		tw = fmt.Sprintf("%s:%s:true", a, twin[2:])
+	}
+	want := []string{fmt.Sprintf("%s:11:true", a), tw, fmt.Sprintf("%s:33:true", b)}
+	sort.Strings(want)
+	if strings.Join(got, " ") != strings.Join(want, " ") {
+		o.Fail(id, "inform-receipt", fmt.Sprintf("three servers were contacted, two of them under one address on different networks; receipts %v, want %v", got, want), abstract)
+	}
+	if (err == nil) != twinOK {
+		o.Fail(id, "inform-verdict", fmt.Sprintf("Inform returned %v (the server sharing an address: %s)", err, twin), abstract)
+	}
+	reply = 0
+	err = xc.Broadcast(ctx, "M", 1, &reply)
+	if (err == nil) != twinOK {
+		o.Fail(id, "broadcast-verdict", fmt.Sprintf("Broadcast returned %v (the server sharing an address: %s)", err, twin), abstract)
+	}
+	o.ImplOnly(id, abstract, true)
+}
+
 func runC17(r *common.Rand, tier string, o *common.Out, replay string) {
+	if strings.HasPrefix(replay, "twins|") {
+		p := strings.Split(replay, "|")
+		c17Twins(o, "replay", p[1], p[2] == "true")
+		return
+	}
+	if replay == "" {
+		for i, tw := range []string{"ok22", "svc", "lost", "ok11"} {
+			c17Twins(o, fmt.Sprintf("tw%da", i), tw, false)
+			c17Twins(o, fmt.Sprintf("tw%db", i), tw, true)
+		}
+	}
 	if strings.HasPrefix(replay, "raw ") {
 		c17Raw(o, "replay", replay)
 		return
